@@ -18,12 +18,13 @@ Qed.
 
 (* C06: whatever the xargs limiter chain lets through (within_limits' system clause), the kernel
    accepts - provided sysconf(ARG_MAX) is the kernel's own limit, the environment strings and the
-   command-line arguments are each within the per-string bound, and the program path fits in the headroom *)
+   command-line arguments are each within the per-string bound, and the program's file name (with what a #! line adds)
+   fits in PATH_MAX plus the headroom *)
 Theorem xargs_batch_accepted c b rl env fn :
   within_limits c b -> c_sys c = sys_budget (kernel_limit rl) env -> c_init c <> [] ->
   Forall (fun len => len + 1 <= MAX_ARG_STRLEN) (env_strings env) ->
   Forall (fun len => len + 1 <= MAX_ARG_STRLEN) (c_init c) ->
-  fn + 1 <= 2048 ->
+  fn + 1 <= 4096 + 2048 ->
   kernel_accepts rl {| argv := c_init c ++ map alen b; envp := env_strings env; fname := fn |}.
 Proof.
   intros (_ & _ & _ & Hsys & Hsingle) Hb Hne He Hi Hf. split; cbn [argv envp fname].
